@@ -288,7 +288,7 @@ def _worker(arg):
         return msg
 
     try:
-        fails = hyp_search(case_strategy(), prop, n, seed, stats, classify=classify)
+        fails = hyp_search(case_strategy(), prop, n, seed, stats, classify=classify, skip_first=1)
     finally:
         cleanup()
     return stats, fails
